@@ -140,6 +140,24 @@ def snapshot(root, skip=()):
     return snap
 
 
+def dir_mtimes(root, skip=('tmp',)):
+    """{relative path: mtime ns} of every directory below root (not root itself, not those in or below `skip`): creating, removing or
+    renaming an entry changes the modification time of the directory even when the listing is the same afterwards."""
+    out = {}
+    rootb = fsb(root)
+    for dp, dns, fns in os.walk(rootb):
+        keep = []
+        for dn in dns:
+            p = os.path.join(dp, dn)
+            rel = os.path.relpath(p, rootb).decode('latin-1')
+            if rel in skip or os.path.islink(p):
+                continue
+            keep.append(dn)
+            out[rel] = os.lstat(p).st_mtime_ns
+        dns[:] = keep
+    return out
+
+
 def _copy_entry(src, dst):
     """copy_function for copytree: a FIFO is recreated, everything else copied with its times."""
     if stat.S_ISFIFO(os.lstat(src).st_mode):
@@ -191,17 +209,19 @@ class Scenario:
         # keeps its modification time" is observable and a file written during the run can be told apart
         import time as _time
         self.t0_ns = _time.time_ns() - 5 * 10**9
-        if mtimes is None:
-            mtimes = {}
-            for i, rel in enumerate(sorted(r for r, d in tree.items() if d is not None)):
-                mtimes[rel] = (1600000000 + 86400 * i) * 10**9 + 123456789 + i
-        for rel, t in (mtimes or {}).items():
-            os.utime(os.path.join(fsb(self.root), fsb(rel)), ns=(t, t), follow_symlinks=False)
+        allm = {}
+        for i, rel in enumerate(sorted(r for r, d in tree.items() if d is not None)):
+            allm[rel] = (1600000000 + 86400 * i) * 10**9 + 123456789 + i
+        # `mtimes`: {relative path: ns} on top of that - files, links and DIRECTORIES (set deepest first, after everything was created)
+        allm.update(mtimes or {})
         os.makedirs(os.path.join(self.root, 'tmp'), exist_ok=True)
         os.makedirs(os.path.join(self.root, 'home'), exist_ok=True)
         with open(os.path.join(self.root, 'conf'), 'w', encoding='latin-1') as fh:
             fh.write(self.config)
+        for rel in sorted(allm, key=lambda r: -r.count('/')):
+            os.utime(os.path.join(fsb(self.root), fsb(rel)), ns=(allm[rel], allm[rel]), follow_symlinks=False)
         self.initial = snapshot(self.root, skip=('conf',))
+        self.initial_dirs = dir_mtimes(self.root)
         self._saved = os.path.join(self.root + '.save')
         shutil.copytree(self.root, self._saved, symlinks=True, copy_function=_copy_entry)
 
